@@ -6,6 +6,7 @@ import (
 	"os"
 	"os/exec"
 	"path/filepath"
+	"regexp"
 	"sort"
 	"strings"
 	"sync"
@@ -43,6 +44,7 @@ type detPool struct {
 	Path      string `json:"path"`
 	Committed bool   `json:"committed"`
 	Heavy     bool   `json:"heavy"`
+	Lang      string `json:"lang"`
 }
 
 type detFileSum struct {
@@ -209,6 +211,9 @@ func prepareDet(cfg *config) ([]string, []string, map[string]any, error) {
 		}
 	}
 	sort.Strings(sites)
+	for i := range pool {
+		pool[i].Lang = grammarLang(pool[i].Path)
+	}
 	setup := &detSetup{Pool: pool, Sites: sites, Refs: map[string]*detRef{}}
 	setupPath := filepath.Join(cfg.scratch, "detsim-setup.json")
 	if err := writeJSON(setupPath, setup); err != nil {
@@ -259,4 +264,18 @@ func prepareDet(cfg *config) ([]string, []string, map[string]any, error) {
 	engines["detsim"].probes = append(wantProbes, "generation-with-history", "committed-files-compared", "map-order-permuted", "clock-jump")
 	// every run in a fresh child process: the only history a run sees is the one its tape describes
 	return []string{bin, "-isolate"}, []string{"ZZ_DETSIM_SETUP=" + setupPath}, info, nil
+}
+
+var langHeaderRe = regexp.MustCompile(`(?m)^language\s+\S+\((\w+)\)`)
+
+// grammarLang reads the target language from the grammar's header line.
+func grammarLang(path string) string {
+	b, err := os.ReadFile(path)
+	if err != nil {
+		return "?"
+	}
+	if m := langHeaderRe.FindSubmatch(b); m != nil {
+		return string(m[1])
+	}
+	return "none"
 }
